@@ -162,7 +162,7 @@ def main():
                 res.fail(f"law raises at the reference law={name} dim={dim}", f"{type(ex).__name__}: {str(ex)[:150]}", dict(law=name, dim=dim))
 
     # ---------------- element operators: tangent = d residual / d u ----------------
-    for et in (["TETRA4", "HEXA8", "TRI3", "QUAD4"] if not thorough else ["TETRA4", "TETRA10", "HEXA8", "PRISM6", "TRI3", "TRI6", "QUAD4", "QUAD8"]):
+    for et in (["TETRA4", "HEXA8", "PRISM6", "TRI3", "QUAD4"] if not thorough else ["TETRA4", "TETRA10", "HEXA8", "PRISM6", "TRI3", "TRI6", "QUAD4", "QUAD8"]):
         dim = M.dim_of(et)
         mesh = M.mesh_2d(et, 1.0, 1.0, 1.0) if dim == 2 else M.mesh_3d(et, 1.0, 1.0, 1.0, 1.0, 1)
         g = mesh.groupElem
@@ -213,6 +213,66 @@ def main():
                 out = Operators.NonLinear.TimeQuadratureStressTensor(law, HyperElasticState(g, un, MatrixType.rigi), HyperElasticState(g, ut, MatrixType.rigi), HyperElasticState(g, uu, MatrixType.rigi), coefK_, npts_, tol_)
                 return np.asarray(out[0]) * coefK_, out[1]
             fd_check(f"TimeQuadratureStressTensor coefK={coefK_} nPoints={npts_} tol={tol_}", quad2, u0, tol=2e-5)
+        # Kelvin-Voigt viscous element: F_visco(u, v) = C(u) v; the configuration tangent is d(C v)/du at fixed velocity
+        try:
+            law.eta = 0.35
+            Kg_, Rv_, Cv_ = (np.asarray(a) for a in Operators.NonLinear.KelvinVoigtDamping(law, HyperElasticState(g, u0, MatrixType.rigi), v0))
+            ve_ = v0[asm]
+            res.case((et, "KelvinVoigt residual = C v"))
+            res.count("operator:KelvinVoigtDamping")
+            gapCv = np.abs(np.einsum("eij,ej->ei", Cv_, ve_) - Rv_).max() / (1e-300 + np.abs(Rv_).max())
+            if gapCv > 1e-9:
+                res.fail("viscous residual is not C v op=KelvinVoigtDamping", f"max |R_e - C_e v_e| / |R_e| = {gapCv:.2e} on {et}", dict(elemType=et, operator="KelvinVoigtDamping"))
+            if np.abs(Cv_ - np.swapaxes(Cv_, 1, 2)).max() > 1e-10 * np.abs(Cv_).max():
+                res.fail("damping matrix not symmetric op=KelvinVoigtDamping", f"max |C_e - C_e'| = {np.abs(Cv_ - np.swapaxes(Cv_, 1, 2)).max():.2e} on {et}", dict(elemType=et, operator="KelvinVoigtDamping"))
+            fd_check("KelvinVoigtDamping", lambda uu: Operators.NonLinear.KelvinVoigtDamping(law, HyperElasticState(g, uu, MatrixType.rigi), v0)[:2], u0)
+        except Exception as ex:  # noqa: BLE001
+            res.fail("operator raises op=KelvinVoigtDamping", f"{et}: {type(ex).__name__}: {str(ex)[:120]}", dict(elemType=et, operator="KelvinVoigtDamping"))
+        finally:
+            law.eta = 0.0
+        # penalty contact against a rigid plane: gap g = (X + u - x0) . n at the surface Gauss points; R_e pushes the body out, K_e = -dR_e/du
+        try:
+            for bndc in mesh.Get_list_groupElem(dim - 1):
+                mtc = MatrixType.mass
+                Nc_ = np.asarray(bndc.Get_N_pg(mtc))[:, 0, :]
+                nrm_ = np.array([0.6, 0.8, 0.0]) if dim == 2 else np.array([0.48, 0.6, 0.64])
+                Xc_ = mesh.coord[np.asarray(bndc.connect)]
+                x0_ = Xc_.reshape(-1, 3).mean(0)          # plane through the centroid of the boundary nodes: about half of the points penetrate
+                asm_c = np.asarray(bndc.Get_assembly_e(dim))
+
+                def contact(uu, bndc=bndc, Nc_=Nc_, Xc_=Xc_, x0_=x0_, nrm_=nrm_, mtc=mtc):
+                    ue_ = np.zeros_like(Xc_)
+                    ue_[..., :dim] = uu.reshape(-1, dim)[np.asarray(bndc.connect)]
+                    xg_ = np.einsum("pn,enc->epc", Nc_, Xc_ + ue_)
+                    gap_ = FeArray.asfearray((xg_ - x0_) @ nrm_)
+                    nn_ = FeArray.asfearray(np.broadcast_to(nrm_, xg_.shape).copy())
+                    return Operators.NonLinear.PenaltyContact(bndc, 50.0, gap_, nn_, None, mtc), gap_
+                (Kc_, Rc_), gap0_ = contact(u0)
+                Kc_, Rc_ = np.asarray(Kc_), np.asarray(Rc_)
+                gap0_ = np.asarray(gap0_)
+                hc = 1e-7
+                for e in sorted({0, bndc.Ne // 2, bndc.Ne - 1}):
+                    if np.abs(gap0_[e]).min() < 1e-4:
+                        continue   # a point on the obstacle surface: the force has a kink there
+                    Kfd = np.zeros_like(Kc_[e])
+                    for j, dof in enumerate(asm_c[e]):
+                        up, um = u0.copy(), u0.copy(); up[dof] += hc; um[dof] -= hc
+                        Kfd[:, j] = -(np.asarray(contact(up)[0][1])[e] - np.asarray(contact(um)[0][1])[e]) / (2 * hc)
+                    res.case((et, str(bndc.elemType), e, "PenaltyContact"))
+                    res.count("operator:PenaltyContact")
+                    err = np.abs(Kfd - Kc_[e]).max() / (1 + np.abs(Kc_[e]).max())
+                    if err > 5e-6:
+                        res.fail("tangent is not the derivative of the residual op=PenaltyContact", f"max |K_e + dR_e/du| = {err:.2e} on element {e} of the {bndc.elemType} boundary group of {et}", dict(elemType=et, operator="PenaltyContact"))
+                        break
+                # the force: only penetrating points push, along the normal, and the total equals penalty * int <-g> dGamma n
+                wJc_ = np.asarray(bndc.Get_weightedJacobian_e_pg(mtc))
+                tot = Rc_.reshape(bndc.Ne, -1, dim).sum((0, 1))
+                wantc = 50.0 * (wJc_ * np.where(gap0_ < 0, -gap0_, 0.0)).sum() * nrm_[:dim]
+                res.case((et, str(bndc.elemType), "PenaltyContact force"))
+                if np.abs(tot - wantc).max() > 1e-9 * (1e-300 + np.abs(wantc).max()):
+                    res.fail("contact force is not penalty x penetration along the normal op=PenaltyContact", f"sum of R_e = {tot.tolist()}, penalty int <-g> n = {wantc.tolist()} on the {bndc.elemType} boundary group of {et}", dict(elemType=et, operator="PenaltyContact"))
+        except Exception as ex:  # noqa: BLE001
+            res.fail("operator raises op=PenaltyContact", f"{et}: {type(ex).__name__}: {str(ex)[:120]}", dict(elemType=et, operator="PenaltyContact"))
         if dim == 3:
             try:
                 nPg_ = np.asarray(g.Get_weightedJacobian_e_pg(MatrixType.rigi)).shape[1]
@@ -220,27 +280,50 @@ def main():
                 law.active_stress = 0.3
                 fd_check("ActiveStressTensor", lambda uu: Operators.NonLinear.ActiveStressTensor(law, HyperElasticState(g, uu, MatrixType.rigi)), u0)
             except Exception as ex:  # noqa: BLE001
-                res.notes.append(f"ActiveStressTensor not exercised on {et}: {type(ex).__name__}: {str(ex)[:80]}")
+                res.fail("operator raises op=ActiveStressTensor", f"ActiveStressTensor on {et}: {type(ex).__name__}: {str(ex)[:120]}", dict(elemType=et, operator="ActiveStressTensor"))
             try:
-                bnd = mesh.Get_list_groupElem(2)[0]
-                asm_b = np.asarray(bnd.Get_assembly_e(3))
-                def follow(uu):
-                    return Operators.NonLinear.FollowingPressure(bnd, uu, 0.7)
-                K_e, R_e = follow(u0)
-                e = 0
-                h = 1e-6
-                Kfd = np.zeros_like(np.asarray(K_e)[e])
-                for j, dof in enumerate(asm_b[e]):
-                    up, um = u0.copy(), u0.copy(); up[dof] += h; um[dof] -= h
-                    # documented convention of this operator: R_e is the follower force F and K_e = -dF/du (the simulation subtracts F)
-                    Kfd[:, j] = -(np.asarray(follow(up)[1])[e].ravel() - np.asarray(follow(um)[1])[e].ravel()) / (2 * h)
-                res.case((et, "FollowingPressure"))
-                res.count("operator:FollowingPressure")
-                err = np.abs(Kfd - np.asarray(K_e)[e]).max() / (1 + np.abs(np.asarray(K_e)[e]).max())
-                if err > 5e-6:
-                    res.fail("tangent is not the derivative of the residual op=FollowingPressure", f"max |K_e - dR_e/du| = {err:.2e} on the boundary group of {et}", dict(elemType=et, operator="FollowingPressure"))
+                # a finer mesh with interior nodes, its nodes renumbered at random: the numbering inside a surface group then differs from the mesh numbering
+                from tools.harness.C03 import permuted_mesh
+                import random as _random
+                rp_ = _random.Random(1000 * args.seed + len(et))
+                meshp = permuted_mesh(M.mesh_3d(et, 1.0, 1.0, 1.0, 0.5, 2), rp_)
+                up0 = np.array([rp_.gauss(0, 0.03) for _ in range(meshp.Nn * 3)])
+                # every surface group of the mesh (a prism mesh has a triangle group and a quadrangle group, whose node
+                # numbering inside the group differs from the numbering of the mesh), first / middle / last element of each
+                for bnd in meshp.Get_list_groupElem(2):
+                    asm_b = np.asarray(bnd.Get_assembly_e(3))
+                    def follow(uu, bnd=bnd):
+                        return Operators.NonLinear.FollowingPressure(bnd, uu, 0.7)
+                    K_e, R_e = follow(up0)
+                    K_e, R_e = np.asarray(K_e), np.asarray(R_e)
+                    h = 1e-6
+                    identb = dict(elemType=et, surfaceGroup=str(bnd.elemType), operator="FollowingPressure")
+                    for e in sorted({0, bnd.Ne // 2, bnd.Ne - 1}):
+                        Kfd = np.zeros_like(K_e[e])
+                        for j, dof in enumerate(asm_b[e]):
+                            up, um = up0.copy(), up0.copy(); up[dof] += h; um[dof] -= h
+                            # documented convention of this operator: R_e is the follower force F and K_e = -dF/du (the simulation subtracts F)
+                            Kfd[:, j] = -(np.asarray(follow(up)[1])[e].ravel() - np.asarray(follow(um)[1])[e].ravel()) / (2 * h)
+                        res.case((et, str(bnd.elemType), e, "FollowingPressure"))
+                        res.count("operator:FollowingPressure")
+                        err = np.abs(Kfd - K_e[e]).max() / (1 + np.abs(K_e[e]).max())
+                        if err > 5e-6:
+                            res.fail("tangent is not the derivative of the residual op=FollowingPressure", f"max |K_e - dR_e/du| = {err:.2e} on element {e} of the {bnd.elemType} boundary group of {et}", identb)
+                            break
+                    # the force itself from the deformed positions of the element's own nodes: F_i = p sum_g w_g N_i (dx/dr x dx/ds)
+                    mt = MatrixType.rigi
+                    N_ = np.asarray(bnd.Get_N_pg(mt))[:, 0, :]
+                    dN_ = np.asarray(bnd.Get_dN_pg(mt))
+                    w_ = np.asarray(bnd.Get_gauss(mt).weights)
+                    x_ = (meshp.coord + up0.reshape(-1, 3))[np.asarray(bnd.connect)]
+                    nrm = np.cross(np.einsum("pn,enc->epc", dN_[:, 0, :], x_), np.einsum("pn,enc->epc", dN_[:, 1, :], x_))
+                    Fref = 0.7 * np.einsum("p,pn,epc->enc", w_, N_, nrm).reshape(bnd.Ne, -1)
+                    res.case((et, str(bnd.elemType), "FollowingPressure force"))
+                    errF = np.abs(R_e - Fref).max() / (1e-300 + np.abs(Fref).max())
+                    if errF > 1e-9:
+                        res.fail("residual is not the follower force op=FollowingPressure", f"max |R_e - p int N (dx/dr x dx/ds)| / |F| = {errF:.2e} on the {bnd.elemType} boundary group of {et} (deformed positions of the element's own nodes)", identb)
             except Exception as ex:  # noqa: BLE001
-                res.notes.append(f"FollowingPressure not exercised on {et}: {type(ex).__name__}: {str(ex)[:80]}")
+                res.fail("operator raises op=FollowingPressure", f"FollowingPressure on the boundary groups of {et}: {type(ex).__name__}: {str(ex)[:120]}", dict(elemType=et, operator="FollowingPressure"))
 
     # ---------------- the path-quadrature rule itself ----------------
     cc = getattr(Operators.NonLinear, "__clenshaw_curtis", None) or Operators.NonLinear.__dict__.get("__clenshaw_curtis")
@@ -289,7 +372,7 @@ def main():
                     v = np.asarray(s.speed)
                     energies.append(0.5 * float(v @ (Mm @ v)) + float(s._Calc_W()))
             except Exception as ex:  # noqa: BLE001
-                res.notes.append(f"free motion {stress}/{et}/{lawname}: {type(ex).__name__}: {str(ex)[:100]}")
+                res.fail(f"free motion raises stress={stress}", f"{et}/{lawname}: {type(ex).__name__}: {str(ex)[:120]}", dict(elemType=et, law=lawname, stress=stress))
                 continue
             res.case((stress, et, lawname))
             res.count(f"free-motion:{stress}")
